@@ -283,6 +283,7 @@ def make_site_system(
     unvisited_member=None,
     lo=5.0,
     hi=11.0,
+    tail_last_frame_hop=False,
 ) -> SiteSystem:
     """Random margin-controlled site system (see module docstring)."""
     kind, rotated, m = geom.random_lattice(rng, kind, rotate, lo=lo, hi=hi)
@@ -341,6 +342,13 @@ def make_site_system(
                 b = (a + 1) % n_atoms
                 t1 = int(rng.integers(t0 + 1, T)) if t0 + 1 < T else T - 1
                 states[:t1, b] = -1
+    if tail_last_frame_hop and T >= 3:
+        # every atom that can changes site between the last two frames (events at time index T-2)
+        for a in range(n_atoms):
+            others_now = {int(x) for x in states[-1] if x >= 0} | {int(x) for x in states[-2] if x >= 0}
+            cand = [x for x in range(n_sites) if x not in others_now]
+            if len(cand) >= 2:
+                states[-2, a], states[-1, a] = int(cand[0]), int(cand[1])
     inner = inner_flags(rng, states, inner_fraction)
     if tail is not None and inner_fraction < 1.0:
         inner[tail[1] :, tail[0]] = -1
@@ -369,3 +377,45 @@ def make_site_system(
         margin=margin,
         via_image=via_image,
     )
+
+
+def make_many_site_system(rng, n_sites, n_atoms=2, T=40, inner_fraction=1.0, margin=0.04, p_move=0.3, prefer_high=True):
+    """A site system with hundreds to thousands of sites on a jittered fractional grid of a large
+    cell (site indices beyond the int8 / uint8 / 3-digit ranges); atoms prefer high-index sites."""
+    kind, rotated, m = geom.random_lattice(rng, str(rng.choice(['cubic', 'orthorhombic', 'hexagonal', 'triclinic_mild'])), None, lo=5.0, hi=8.0)
+    k = int(np.ceil(n_sites ** (1 / 3))) + 1
+    spacing = 3.2
+    scale = k * spacing / geom.perp_widths(m).min()
+    m = m * scale
+    grid = np.array([(i, j, l) for i in range(k) for j in range(k) for l in range(k)], dtype=float)
+    pick = rng.choice(len(grid), size=n_sites, replace=False)
+    site_frac = (grid[pick] + 0.5 + rng.uniform(-0.12, 0.12, size=(n_sites, 3))) / k
+    w = geom.perp_widths(m).min() / k
+    R = 0.28 * w
+    radii = np.full(n_sites, R)
+    # hop histories on a small subset of sites mapped to (preferably) high indices
+    sub = int(min(n_sites, max(4, 3 * n_atoms)))
+    idx = np.sort(rng.choice(np.arange(n_sites // 2, n_sites) if prefer_high else np.arange(n_sites), size=sub, replace=False))
+    if prefer_high:
+        idx[-1] = n_sites - 1
+    local = hop_histories(rng, T, n_atoms, sub, p_move=p_move)
+    states = np.where(local >= 0, idx[np.clip(local, 0, None)], -1)
+    inner = inner_flags(rng, states, inner_fraction)
+    # no-site points: the centre of a grid cell that holds no site
+    free = np.setdiff1d(np.arange(len(grid)), pick)
+    inv = np.linalg.inv(m)
+    pos = np.empty((T, n_atoms, 3))
+    for t in range(T):
+        for a in range(n_atoms):
+            sidx = states[t, a]
+            if sidx < 0:
+                g = grid[free[int(rng.integers(len(free)))]] if len(free) else grid[pick[0]] + 0.5
+                pos[t, a] = np.mod((g + 0.5 + rng.uniform(-0.05, 0.05, size=3)) / k, 1) if len(free) else np.mod(site_frac[0] + 0.5 / k, 1)
+                continue
+            f = inner_fraction
+            lo, hi = (0.02 * f * R, (1 - margin) * f * R) if inner[t, a] >= 0 else ((1 + margin) * f * R, (1 - margin) * R)
+            r = rng.uniform(lo, hi)
+            pos[t, a] = np.mod(site_frac[sidx] + (random_unit_vectors(rng, 1)[0] * r) @ inv, 1)
+    fw = np.mod(rng.uniform(0, 1, size=(1, 1, 3)) + rng.normal(scale=0.001, size=(T, 1, 3)), 1)
+    labels = [str(x) for x in rng.choice(['A', 'B'], size=n_sites)]
+    return SiteSystem(kind=kind, rotated=rotated, matrix=m, site_frac=site_frac, labels=labels, radii=radii, site_radius_arg=float(R), inner_fraction=inner_fraction, floating='Li', species_names=['Li'] * n_atoms + ['S'], coords=np.concatenate([pos, fw], axis=1), n_floating=n_atoms, states_true=states, inner_true=inner, margin=margin)
